@@ -148,6 +148,19 @@ def apply_call(circ, call, prev_gates):
         circ.extend_circuit(c2)
     elif c == 'shift':
         circ.shift_qubit_index_(call['d'])
+    elif c in ('addP', 'setP'):
+        g = call['g']
+        if c == 'addP':
+            tg = tuple(q - 1 for q in g['tg'])
+            getattr(circ, g['op'])(tg if len(tg) > 1 else tg[0], circ.P[g['op']][g['hold'] - 1])
+        new_gates = call['new_gates']
+        table = {}
+        for h in new_gates:
+            if h.get('hold', 0) > 0 and h['op'] == g['op']:
+                a = angles(h)
+                table[h['hold']] = list(a) if isinstance(a, tuple) else a
+        vals = np.array([table[j] for j in sorted(table)], dtype=np.float64)
+        circ.setP(**{g['op']: vals})
     else:
         raise ValueError(c)
 
